@@ -79,4 +79,19 @@ def sendAudioFrame (lich data : List Int) : List Nat :=
 def streamFrame (lsf : List Nat) (lichN fn : Nat) (payload : List Nat) : List Nat :=
   sendAudioFrame (lichSegment ((lsf.drop (5 * lichN)).take 5) lichN) (dataFrame fn payload)
 
+/-- `make_bert_frame`, data generation: 24 bytes of eight generator bits each (`byte <<= 1; byte |= prbs.generate()`), then five bits
+    shifted left by three -/
+def bertData (bits : List Nat) : List Nat :=
+  (List.range 24).map (fun k => ((bits.drop (8 * k)).take 8).foldl (fun b x => ((b <<< 1) % 256) ||| x) 0) ++
+    [(((bits.drop 192).take 5).foldl (fun b x => ((b <<< 1) % 256) ||| x) 0 <<< 3) % 256]
+
+/-- `make_bert_frame`, encoding: 24 full bytes, five bits of the last byte, four flush bits; puncture P2 into 368 values -/
+def bertFrameVals (bits : List Nat) : List Int :=
+  let data := bertData bits
+  let inb := (data.take 24).flatMap msbBits ++ (msbBits (data.getD 24 0)).take 5
+  punct Gen.p2 (encBits 0 (inb ++ [0, 0, 0, 0])) 368
+
+/-- one BERT frame as the loop in `main()` emits it in bitstream mode -/
+def bertFrame (bits : List Nat) : List Nat := [0xDF, 0x55] ++ packBits (Cond.randBits (Cond.interleaveSoft (bertFrameVals bits)))
+
 end M17.TxMod
